@@ -605,6 +605,30 @@ pub fn exec_group_by(hot: bool, script: &[Ev], key: KeyF, policy: u8) -> Vec<(i6
   r
 }
 
+/// `hot source . group_by(key) . take(n)` with a probe attached to every announced group
+pub fn exec_group_by_take(create_handle: bool, script: &[Ev], key: KeyF, n: usize) -> Vec<(i64, usize, Ev)> {
+  crate::vtime::reset(crate::vtime::Mode::Fifo);
+  crate::stamp::set(crate::stamp::AT_SUBSCRIBE);
+  let env = Env::new(1);
+  let log = sh(Vec::new());
+  let src = Node::Src(if create_handle { Src::HotCreate(0) } else { Src::Hot(0) });
+  let s = build(&src, &env);
+  fn take_groups<S>(groups: S, n: usize) -> rxrust::ops::take::TakeOp<S>
+  where
+    S: ObservableExt<rxrust::ops::group_by::KeyObservable<i64, Subj>, E>,
+  {
+    groups.take(n)
+  }
+  let _sub = take_groups(s.group_by::<_, _, Subj>(move |v: &V| key.eval(v)), n).actual_subscribe(GroupProbe { log: log.clone(), policy: 0 });
+  for (k, ev) in script.iter().enumerate() {
+    crate::stamp::set(k);
+    emit(&env, if create_handle { InputKind::Create } else { InputKind::Subject }, 0, ev);
+  }
+  let r = lock!(log).clone();
+  env.teardown();
+  r
+}
+
 pub fn build(node: &Node, env: &Env) -> Bx {
   match node {
     Node::Src(s) => build_src(s, env),
@@ -834,6 +858,8 @@ impl Observer<V, E> for Probe {
   fn next(&mut self, v: V) {
     let fed = match (&self.fb, &v) {
       (Some((_, trig)), V::I(n)) if trig.contains(n) => Some(V::I(*n + 5000)),
+      // a pair whose first component is a trigger (with_latest_from: the main item)
+      (Some((_, trig)), V::P(a, _)) if matches!(&**a, V::I(n) if trig.contains(n)) => Some(V::I(to_i(a) + 5000)),
       _ => None,
     };
     self.push(Ev::N(v));
@@ -1295,6 +1321,26 @@ impl Subscription for ChildSub {
   }
 }
 
+/// a child that, while it is being unsubscribed, appends one more subscription to the composite it belongs to
+pub struct ReChild {
+  st: Sh<ChildState>,
+  comp: MultiSub,
+  grandchild: Sh<ChildState>,
+}
+impl Subscription for ReChild {
+  fn unsubscribe(mut self) {
+    {
+      let mut s = lock!(self.st);
+      s.unsubs += 1;
+      s.closed = true;
+    }
+    self.comp.append(BoxSub::new(ChildSub(self.grandchild.clone())));
+  }
+  fn is_closed(&self) -> bool {
+    lock!(self.st).closed
+  }
+}
+
 #[derive(Clone, Debug)]
 pub enum CObs {
   /// (handle, result)
@@ -1316,6 +1362,15 @@ pub fn exec_composite(ops: &[COp]) -> Vec<(usize, CObs)> {
           let st = sh(ChildState::default());
           children.push(st.clone());
           h.append(BoxSub::new(ChildSub(st)));
+        }
+      }
+      COp::AppendReentrant => {
+        if let Some(h) = handles.iter_mut().flatten().next() {
+          let (st, gst) = (sh(ChildState::default()), sh(ChildState::default()));
+          children.push(st.clone());
+          children.push(gst.clone());
+          let comp = h.clone();
+          h.append(BoxSub::new(ReChild { st, comp, grandchild: gst }));
         }
       }
       COp::CloneHandle(i) => {
@@ -1359,6 +1414,10 @@ pub fn exec_composite(ops: &[COp]) -> Vec<(usize, CObs)> {
       }
     }
     out.push((k, CObs::Children(children.iter().map(|c| lock!(c).unsubs).collect())));
+  }
+  // everything has been observed: tear down what is still open (a re-entrant child holds a clone of its composite)
+  if let Some(h) = handles.into_iter().flatten().next() {
+    h.unsubscribe();
   }
   out
 }
